@@ -117,7 +117,7 @@ func shortName(key string) string {
 // countBuiltin: the effectful builtins take part in calls("builtin:<name>") like ordinary callees.
 func countBuiltin(e *Enc, name string) {
 	switch name {
-	case "append", "copy", "delete":
+	case "append", "copy", "delete", "close":
 		if e.fc != nil {
 			e.bumpCallCount("builtin:" + name)
 		}
